@@ -641,6 +641,9 @@ where
                         &mut recorder,
                     ))
                 });
+                // The document is read to its end before the next one is looked at.
+                let value_res =
+                    value_res.and_then(|v| src.complete_document(delivered_before).map(|()| v));
                 let value = match value_res {
                     Ok(v) => v,
                     Err(e) => return Err(maybe_with_snippet(e, input, with_snippet, crop_radius)),
@@ -662,10 +665,6 @@ where
                             crop_radius,
                         ));
                     }
-                }
-                // A target that read nothing has left its document where it was.
-                if src.delivered() == delivered_before && !src.skip_to_next_document() {
-                    break;
                 }
             }
             None => break,
@@ -885,6 +884,10 @@ where
                                 &mut recorder,
                             ))
                         });
+                        // The document is read to its end before the next one is looked at.
+                        let value_res = value_res.and_then(|v| {
+                            self.src.complete_document(delivered_before).map(|()| v)
+                        });
                         let value = match value_res {
                             Ok(v) => v,
                             Err(e) => {
@@ -896,12 +899,6 @@ where
                                 return Some(Err(e));
                             }
                         };
-                        // A target that read nothing has left its document where it was.
-                        if self.src.delivered() == delivered_before
-                            && !self.src.skip_to_next_document()
-                        {
-                            self.finished = true;
-                        }
 
                         match Validate::validate(&value) {
                             Ok(()) => return Some(Ok(value)),
@@ -1054,6 +1051,9 @@ where
                         &mut recorder,
                     ))
                 });
+                // The document is read to its end before the next one is looked at.
+                let value_res =
+                    value_res.and_then(|v| src.complete_document(delivered_before).map(|()| v));
                 let value = match value_res {
                     Ok(v) => v,
                     Err(e) => return Err(maybe_with_snippet(e, input, with_snippet, crop_radius)),
@@ -1075,10 +1075,6 @@ where
                             crop_radius,
                         ));
                     }
-                }
-                // A target that read nothing has left its document where it was.
-                if src.delivered() == delivered_before && !src.skip_to_next_document() {
-                    break;
                 }
             }
             None => break,
@@ -1288,6 +1284,10 @@ where
                                 &mut recorder,
                             ))
                         });
+                        // The document is read to its end before the next one is looked at.
+                        let value_res = value_res.and_then(|v| {
+                            self.src.complete_document(delivered_before).map(|()| v)
+                        });
                         let value = match value_res {
                             Ok(v) => v,
                             Err(e) => {
@@ -1299,12 +1299,6 @@ where
                                 return Some(Err(e));
                             }
                         };
-                        // A target that read nothing has left its document where it was.
-                        if self.src.delivered() == delivered_before
-                            && !self.src.skip_to_next_document()
-                        {
-                            self.finished = true;
-                        }
 
                         match ValidatorValidate::validate(&value) {
                             Ok(()) => return Some(Ok(value)),
@@ -1483,15 +1477,14 @@ pub fn from_multiple_with_options<T: DeserializeOwned>(
                 let value_res = crate::anchor_store::with_document_scope(|| {
                     T::deserialize(crate::de::YamlDeserializer::new(&mut src, cfg))
                 });
+                // The document is read to its end before the next one is looked at.
+                let value_res =
+                    value_res.and_then(|v| src.complete_document(delivered_before).map(|()| v));
                 let value = match value_res {
                     Ok(v) => v,
                     Err(e) => return Err(maybe_with_snippet(e, input, with_snippet, crop_radius)),
                 };
                 values.push(value);
-                // A target that read nothing has left its document where it was.
-                if src.delivered() == delivered_before && !src.skip_to_next_document() {
-                    break;
-                }
             }
             None => break,
         }
@@ -2057,9 +2050,11 @@ where
                                 self.cfg,
                             ))
                         });
-                        // An error, or a target that read nothing (its document is still where
-                        // it was): step over the rest of the document.
-                        if res.is_err() || self.src.delivered() == delivered_before {
+                        // The document is read to its end before the next one is looked at.
+                        let res = res.and_then(|v| {
+                            self.src.complete_document(delivered_before).map(|()| v)
+                        });
+                        if res.is_err() {
                             // After a deserialization error, skip remaining events in the
                             // current document and try to recover at the next document boundary.
                             // If no next document is found, mark as finished.
